@@ -5,7 +5,8 @@ from pycoq import parse_file, TranslateError, fail
 
 SRC_A = 'src/qce_circuit/structure/circuit_operations.py'
 SRC_B = 'src/qce_circuit/addon_stim/circuit_operations.py'
-SOURCES = [SRC_A, SRC_B]
+SRC_L = 'src/qce_circuit/structure/intrf_circuit_operation.py'
+SOURCES = [SRC_A, SRC_B, SRC_L]
 CHANS = ['READOUT', 'MICROWAVE', 'FLUX', 'ALL']
 GKEY = {'READOUT': 'GReadout', 'MICROWAVE': 'GMicrowave', 'FLUX': 'GFlux', 'RESET': 'GReset'}
 
@@ -139,7 +140,7 @@ def table(repo):
     """[{name, bases, fields:[{name, init}], chan, dur, dur_init, copy:{kw:kind}, missing:[...], copies_link}]"""
     classes = {}
     order = []
-    for src in SOURCES:
+    for src in (SRC_A, SRC_B):
         tree = parse_file(f"{repo}/{src}")
         for n in tree.body:
             if isinstance(n, ast.ClassDef):
@@ -216,8 +217,35 @@ def qfield_index(c, fld):
     return qf.index(fld)
 
 
+def link_copy_spec(repo):
+    """RelationLink.copy / MultiRelationLink.copy: which fields of the link the returned copy receives from self"""
+    tree = parse_file(f"{repo}/{SRC_L}")
+    out = {}
+    for cname, ref_field in (('RelationLink', '_reference_node'), ('MultiRelationLink', '_reference_nodes')):
+        cls = next((n for n in tree.body if isinstance(n, ast.ClassDef) and n.name == cname), None)
+        if cls is None:
+            raise TranslateError(f"class {cname} not found")
+        fn = next((n for n in cls.body if isinstance(n, ast.FunctionDef) and n.name == 'copy'), None)
+        if fn is None:
+            raise TranslateError(f"{cname}.copy not found")
+        rets = [x for x in ast.walk(fn) if isinstance(x, ast.Return)]
+        if len(rets) != 1 or not (isinstance(rets[0].value, ast.Call) and isinstance(rets[0].value.func, ast.Name)
+                                  and rets[0].value.func.id == cname and not rets[0].value.args):
+            fail(fn, f"{cname}.copy: expected a single `return {cname}(keyword=...)`")
+        kw = kwmap(rets[0].value)
+        same = {k for k, v in kw.items() if isinstance(v, ast.Attribute) and isinstance(v.value, ast.Name) and v.value.id == 'self' and v.attr == k}
+        if ref_field not in kw or not isinstance(kw[ref_field], ast.Name):
+            fail(fn, f"{cname}.copy: {ref_field} is not a transferred local")
+        for k in kw:
+            if k != ref_field and k not in same:
+                fail(kw[k], f"{cname}.copy: argument {k} is not self.{k}")
+        out[cname] = same
+    return out
+
+
 def generate(repo):
     tab = table(repo)
+    links = link_copy_spec(repo)
     o = ["(* GENERATED by tools/translate/gen_classes.py from the current /repo sources -- do not edit *)",
          "From Coq Require Import ZArith List Bool String.", "Import ListNotations.",
          "From Gen Require Import Ident.", "Open Scope Z_scope.", "Open Scope string_scope.", "",
@@ -251,6 +279,12 @@ def generate(repo):
     o.append("Definition no_class : class_spec := {| cs_name := \"\"; cs_init_fields := []; cs_chan := TplList []; cs_dur := DefFixed 0;"
              " cs_dur_init := false; cs_copy_link := true; cs_copy_missing := []; cs_relation_init := false; cs_copy_qchan := true; cs_copy_dur := true |}.")
     o.append("Definition class_of (c : Z) : class_spec := nth (Z.to_nat c) class_table no_class.")
+    o.append("")
+    o.append("(* RelationLink.copy / MultiRelationLink.copy: fields handed on to the copied link *)")
+    bb = lambda x: 'true' if x else 'false'
+    o.append(f"Definition relation_link_copy_keeps_type : bool := {bb('_relation_type' in links['RelationLink'])}.")
+    o.append(f"Definition multi_link_copy_keeps_type : bool := {bb('_relation_type' in links['MultiRelationLink'])}.")
+    o.append(f"Definition multi_link_copy_keeps_group : bool := {bb('_relation_to_group' in links['MultiRelationLink'])}.")
     return "\n".join(o) + "\n"
 
 
